@@ -287,7 +287,10 @@ def check(args):
         elif out is None:
             report.harness_errors.append(f"stalled case could not be re-run: {status} {err}")
     # ---- triage
-    for sig, v in sorted(first_by_sig.items())[:12]:
+    # recorded findings first (they cost nothing), then up to 12 unlisted signatures are shrunk and confirmed
+    ordered = sorted(first_by_sig.items(), key=lambda kv: (report.match_known(kv[0]) is None, kv[0]))
+    n_listed = sum(1 for sig, _ in ordered if report.match_known(sig) is not None)
+    for sig, v in ordered[: n_listed + 12]:
         if report.match_known(sig) is not None:
             # a recorded finding: nothing to shrink or to confirm again on every run
             report.add(sig, "-", summarize(v))
@@ -309,8 +312,9 @@ def check(args):
         vv = next(x for x in a["viol"] if same_sig(x["sig"], sig))
         path = core.write_replay(PROP, f"{small.get('seed', 0)}-{core.digest([small, list(sig)])}-min", {"property": PROP, "case": small, "sig": list(sig), "violation": vv["out"]})
         report.add(sig, path, summarize(vv) + f" [{trials} shrink trials]")
-    for sig in sorted(first_by_sig)[12:]:
-        report.harness_errors.append(f"more than 12 distinct violation signatures; not triaged: {sig}")
+    for sig, v in ordered[n_listed + 12 :]:
+        path = core.write_replay(PROP, f"{v['case'].get('seed', 0)}-{core.digest([v['case'], list(sig)])}-untriaged", {"property": PROP, "case": v["case"], "sig": list(sig), "violation": v["out"]})
+        report.add(sig, path, summarize(v) + " [not minimised: more than 12 distinct signatures in this run]")
     wall = time.time() - t0
     if not args.no_evidence:
         samples = [c for c in cases[:400] if c["faults"]][:4]
